@@ -121,6 +121,7 @@ def cross_build(drv, builds, plan, ti, seed):
                 path = os.path.join(drv.REPLAYS, f"C16-crossbuild-{tag}-s{seed}-r{idx}.trace")
                 with open(path, "w") as f:
                     f.write(f"# VIOLATION property=C16 check=cross_build: observable behaviour differs between the full build and the build without [{','.join(disabled)}] although that facility is never exercised\n")
+                    f.write(f"# cross-build: hap vs {tag}\n")
                     f.write(f"# compare: sim/bin/ecli-sim-hap replay {path} --verbose  vs  sim/bin/ecli-sim-{tag} replay {path} --verbose\n")
                     f.write(r.stdout)
                 drv.say(f"VIOLATION property=C16 replay={path}")
